@@ -46,7 +46,8 @@ def rand_list(rng, maxlen=5):
 
 MUT_OPS = ["add", "discard", "remove", "pop", "clear", "update", "ior", "iand", "isub", "ixor", "reinit",
            "assign_copy", "assign_union", "assign_sub", "assign_and", "assign_or", "assign_xor"]
-Q_OPS = ["q_le", "q_ge", "q_lt", "q_gt", "q_eq", "q_isdisjoint", "q_contains", "q_len"]
+Q_OPS = ["q_le", "q_ge", "q_lt", "q_gt", "q_eq", "q_isdisjoint", "q_contains", "q_len",
+         "q_fork_add", "q_fork_discard", "q_fork_update", "q_helper_union", "q_helper_intersect", "q_helper_diff"]
 
 
 def rand_op(rng):
@@ -57,7 +58,7 @@ def rand_op(rng):
         op = rng.choice(MUT_OPS)
     else:
         op = rng.choice(Q_OPS)
-    if op in ("add", "discard", "remove", "q_contains"):
+    if op in ("add", "discard", "remove", "q_contains", "q_fork_add", "q_fork_discard"):
         return {"op": op, "x": rng.choice(POOL)}
     if op in ("update", "assign_union"):
         return {"op": op, "args": [rand_list(rng, 4) for _ in range(rng.randint(0, 3))]}
@@ -144,6 +145,18 @@ class History(Suite):
                     r = o["x"] in s
                 elif op == "q_len":
                     r = len(s)
+                elif op == "q_fork_add":
+                    t = S(s); t.add(o["x"]); r = list(t)
+                elif op == "q_fork_discard":
+                    t = S(s); t.discard(o["x"]); r = list(t)
+                elif op == "q_fork_update":
+                    t = S(s); t.update(o["o"]); r = list(t)
+                elif op == "q_helper_union":
+                    r = list(m.ordered_union(s, o["o"]))
+                elif op == "q_helper_intersect":
+                    r = list(m.ordered_intersect(s, o["o"]))
+                elif op == "q_helper_diff":
+                    r = list(m.ordered_diff(s, o["o"]))
                 else:
                     raise ValueError(op)
                 if not isinstance(s, S):
@@ -226,6 +239,20 @@ class History(Suite):
                 exp_r = o["x"] in P
             elif op == "q_len":
                 exp_r = len(P)
+            # a set built from this one (or this one passed to a helper): the result is the documented one and
+            # THIS set is unchanged (checked below against P / D, which these operations do not touch)
+            elif op == "q_fork_add":
+                exp_r = list(D) + ([o["x"]] if o["x"] not in P else [])
+            elif op == "q_fork_discard":
+                exp_r = [k for k in D if k != o["x"]]
+            elif op == "q_fork_update":
+                exp_r = list(dict.fromkeys(list(D) + list(o["o"])))
+            elif op == "q_helper_union":
+                exp_r = list(dict.fromkeys(list(D) + list(o["o"])))
+            elif op == "q_helper_intersect":
+                exp_r = [k for k in D if k in set(o["o"])]
+            elif op == "q_helper_diff":
+                exp_r = [k for k in D if k not in set(o["o"])]
             if got.get("err") != exp_err:
                 return f"raises: step {i} {op}: expected {exp_err}, got {got.get('err')}"
             s = got["s"]
